@@ -213,6 +213,23 @@ def compare_res(want, got, check_pairs=True):
     return diffs
 
 
+def typed_header_value(t):
+    """Concretise a header value text as the Python object whose str() is exactly that text, when there is one
+    (0, 0.0, -0.0, False, None, True, ints, floats); otherwise the text itself.  The property demands that the value
+    read back equals the text form of what was supplied."""
+    for obj in (False, True, None):
+        if str(obj) == t:
+            return obj
+    for conv in (int, float):
+        try:
+            obj = conv(t)
+        except ValueError:
+            continue
+        if str(obj) == t:
+            return obj
+    return t
+
+
 def doc_to_arrays(doc):
     """Concretise a spec document: one numpy record array per struct (+ enums dict, header dict, names)."""
     from collections import OrderedDict
@@ -247,5 +264,5 @@ def doc_to_arrays(doc):
                     arr[cn][ri] = conv(cells[ci])
         names.append(text(s['name']))
         arrays.append(arr)
-    hdr = OrderedDict((text(k), text(v)) for k, v in doc['pairs'])
+    hdr = OrderedDict((text(k), typed_header_value(text(v))) for k, v in doc['pairs'])
     return names, arrays, (enums or None), (hdr or None)
